@@ -40,6 +40,10 @@ const (
 type ImpIn struct {
 	wlctrl.ImpIn
 	Paths []string `json:"paths"`
+	// Trackers: which of TWO state trackers opened on the copy before its first write serves each
+	// extra write (0 / 1): the second one still believes the ledger is initializing after the first
+	// one moved it to in-use — its guarded UPDATE must then find nothing to do (no second setval)
+	Trackers []int `json:"trackers"`
 }
 
 func bigFromString(s string) (*big.Int, bool) { return new(big.Int).SetString(s, 10) }
@@ -374,11 +378,17 @@ func RunImportSQL(in ImpIn) (out wlctrl.ImpOut, err error) {
 	// the extra writes: the ledger is reopened (snapshot deltas restart from the imported state;
 	// the state tracker starts from the stored ledger state)
 	dst, router = facadeEnvSQL(b, dstName, in.Strict)
+	routers := []*bulkRouter{router, {Controller: systemcontroller.VerifCtrlStateTracker(dst.Ctrl, dst.L)}}
 	for i, op := range in.Extra {
-		router.op, router.used = op, PathSingle
-		router.path = PathSingle
+		r := routers[0]
+		if i < len(in.Trackers) && in.Trackers[i] == 1 {
+			r = routers[1]
+		}
+		dst.W = r
+		r.op, r.used = op, PathSingle
+		r.path = PathSingle
 		if i < len(in.Paths) {
-			router.path = in.Paths[i]
+			r.path = in.Paths[i]
 		}
 		out.Extra = append(out.Extra, dst.Run(wlctrl.BaseCtx(), op))
 		b.Quiesce()
@@ -407,6 +417,26 @@ func init() {
 				// the first write after the import is the one that resynchronises the sequences: every path must do it
 				if len(in.Paths) > 0 {
 					in.Paths[0] = []string{PathSingle, PathBulk, PathAtomic}[c.R.Intn(3)]
+				}
+				// tracker 0 serves the first writes, then the stale tracker 1 comes in, then both at random
+				in.Trackers = make([]int, len(in.Extra))
+				first := 1 + c.R.Intn(3)
+				// the write right before the stale tracker's first one leaves a gap in the sequences when it
+				// can (a dry-run create draws ids and rolls back): a second resynchronisation would then rewind them
+				if first-1 < len(in.Extra) && first >= 2 {
+					if k := in.Extra[first-1].K; k == wlctrl.KCreateP || k == wlctrl.KCreateS {
+						in.Extra[first-1].Dry = true
+					}
+				}
+				for i := range in.Trackers {
+					switch {
+					case i < first:
+						in.Trackers[i] = 0
+					case i == first:
+						in.Trackers[i] = 1
+					default:
+						in.Trackers[i] = c.R.Intn(2)
+					}
 				}
 			}
 			in.Prop = Prop
